@@ -1,44 +1,58 @@
 /-
-  LzProofs.GenHPParse — PILOT: the mechanical translation of hp.go `(*hashParser).Parse`
-  (LzModel/Generated/CodeHPParse.lean, topic HPParse of tools/extract/code_parse.go) versus the
-  word-level model `LZ.ProbeW.parseW` (LzProofs/ProbeW.lean) for kind `.HP`.
+  LzProofs.GenHPParse — the mechanical translation of hp.go `(*hashParser).Parse`
+  (LzModel/Generated/CodeHPParse.lean, topic HPParse of tools/extract/code_parse.go; with
+  `hashDictionary.processSegment`, `_getLE64`, `_getLE32`, `getLE64` — nothing opaque) versus the word-level
+  model `LZ.ProbeW.parseW` (LzProofs/ProbeW.lean) and, through `ProbeW.parseW_reachable`, the LIST-LEVEL model
+  `Parser.parse` on which C01/C02/C03/C19 are proved.  No sorry, no axioms of its own.
 
-  What is here (no sorry, no axioms):
-    * `blockN s`     the Go value `n` computed by the first statements of Parse
-                     (`n = len(s.Data) - s.W; if n > s.BlockSize { n = s.BlockSize }`),
-    * `staleOf s`    the bytes of the backing array behind `len(s.Data)` — the `stale` argument of
-                     `parseW` (`ProbeW.Backing` for it is `staleOf_length`, under len ≤ cap),
-    * `resetBlk blk` the value of `*blk` after `blk.Sequences = blk.Sequences[:0];
-                     blk.Literals = blk.Literals[:0]`,
-    * `gen_hp_parse_empty`   the straight-line prefix: if `blockN s = 0`, the translated Parse returns
-                     `(s, resetBlk blk, 0, ErrEmptyBuffer)` — for every grow / fuel, no panic.
-  The abstraction map is the existing one of GenHashPropsDict: `ofHPs s : Parser`.
+  Abstraction: `ofHPs s : Parser` (GenHashPropsDict), `staleOf s` = the bytes of the backing array behind
+  `len(s.Data)` (the `stale` argument of `parseW`), `seqRep` = the Go `Seq` of a model sequence, `parseErr`.
 
-  What is NOT proved (statement only; `ofBlock'` is the abstraction of the generated `Block'` to the
-  model `Block`, `errOf` that of `Gen.Err`):
+  Main results
+    gen_hp_parse        for every Go state `s` with `ParseOK s` (below), every `blk`, every `flags ≥ 0`, every
+                        `grow` (the capacity policy of `append`) and every `fuel ≥ len(s.Data) + 3`:
+                          `parseW (ofHPs s) (staleOf s) flags = none`  ⇒  the translated `Parse` is `Res.panic`
+                          `… = some (s', n, e, b)` ⇒ it is `Res.ok (t, blk', n, parseErr e)` with `ofHPs t = s'`,
+                          `staleOf t = staleOf s`, `blk'.Sequences = b.seqs.map seqRep`,
+                          `blk'.Literals.data = b.lits`, `len ≤ cap` for the literals, and `ParseOK t`.
+                        In particular `Res.fuel` never occurs (the fuel bound is explicit) and the Go code panics
+                        exactly where the model says so: in `processSegment` (`f.Data[:b+7]`) or at the reslice
+                        `s.Data[:inputEnd+7]`; inside the loop there is no panic.
+    gen_hp_parse_model  if `ofHPs s` is reachable (`NewParser`, then any history of Write / ReadFrom / Parse /
+                        Parse(nil) / Shrink / Reset in the model): no panic, and the result is the representation
+                        of `(ofHPs s).parse flags` — Go text → translation → word level → list level.
+    gen_hp_init_parseOK `hashParser.init` on `new(hashParser)` establishes `ParseOK` (non-vacuity).
+    gen_hp_parse_empty  the straight-line prefix (`n = 0`), for every fuel.
 
-    theorem gen_hp_parse (grow) (s : Gen.hashParser) (blk : Gen.Block') (flags : Int)
-        (hwf : DictWF s.hashDictionary) (hcfg : 0 ≤ s.HPConfig.WindowSize ∧ 0 ≤ s.HPConfig.BlockSize)
-        (hw : s.hashDictionary.ParserBuffer.W ≤ s.hashDictionary.ParserBuffer.Data.len)
-        (hfl : 0 ≤ flags) (hgrow : GrowOK grow) :
-        ∃ fuel0, ∀ fuel ≥ fuel0,
-          match LZ.ProbeW.parseW (ofHPs s) (staleOf s) flags.toNat with
-          | none => hashParser_Parse grow fuel s blk flags = Res.panic
-          | some (s', n, e, b) =>
-              ∃ t blk', hashParser_Parse grow fuel s blk flags = Res.ok (t, blk', (n : Int), e')
-                ∧ ofHPs t = s' ∧ staleOf t = staleOf s ∧ errOf e' = e
-                ∧ blk'.Sequences = b.seqs-as-Gen.Seq ∧ blk'.Literals.data = b.lits
-                ∧ DictWF t.hashDictionary
+  `ParseOK s`: `DictWF`; the three values `HPConfig` duplicates agree (as natural numbers) with the copies the
+  model reads (`s.WindowSize`, `s.BlockSize` are fields of `HPConfig` in Go, the model reads the buffer's
+  configuration; the model's `minMatch` comes from the configuration, Go's from `s.hash.inputLen`);
+  `0 ≤ BlockSize`; `W ≤ len(Data)`; `1 ≤ inputLen`; `shift ≥ 32` (`hashBits ≤ 32`); `len(Data) < 2^32`.
+  Each is NECESSARY for the equation with `parseW` (all hold after `init` and under `Verify`):
+    * `inputLen = 0`: Go emits a match of length 0 and never advances (`i = litIndex - 1; i++`) — no result for
+      any fuel; the model leaves the loop (`greedyLoopW`, branch `¬ s + k > i`);
+    * `BlockSize < 0` / `W > len(Data)`: Go computes a negative `n` and slices `s.Data[:W+n]`, the model's `blockN`
+      is a natural number (0 ⇒ ErrEmptyBuffer);
+    * `hashBits > 32`: Go truncates the table index to `uint32`, the model's `hashValue` does not;
+    * `len(Data) ≥ 2^32`: positions are stored as `uint32`;
+    * `flags < 0` (e.g. `-1`): `flags&NoTrailingLiterals != 0` in Go; the model takes a natural number.
+  None of these is reachable through the API except a negative `flags` argument, which is outside the domain
+  of the model (`flags : Nat`).
 
-  Plan: (1) `hashDictionary_processSegment` vs `processSegment1W` (loop_1 of processSegment is
-  `insertRangeW`; `_getLE64 (Slice.slice _p i …)` vs `BytesW.getLE64W` needs `_getLE64` on a slice value =
-  the word read of `data ++ stale` at i, a lemma about eight `Slice.index`); (2) `resliceMargin` is exactly the
-  panic condition of `Slice.slice s.Data 0 (inputEnd + 7)`; (3) loop_1 of Parse vs `runGreedyW (hpProbeW …)`,
-  by induction on `inputEnd - i` with the table abstraction `ofHash`; loop_2 (+ the `getLE64` tail) is the
-  word-level `lcp` of ProbeW; loop_3 is `insertRangeW` again; (4) the `NoTrailingLiterals` tail.
+  Proof structure (helper files LzProofs/GenHPParseLemmasBytes.lean, GenHPParseLemmas.lean,
+  GenHPParseLemmasLoop.lean): (1) `_getLE64` / `getLE64` on slice values = `BytesW.le64` / `BytesW.getLE64`
+  (`gen_le64`, `gen_getLE64`, `gen_load_ok`), `bits.TrailingZeros64` = `BytesW.tz64` (`tz_eq`);
+  (2) `processSegment` = `processSegment1W` incl. its panic (`gen_processSegment`, loop = `insertRangeW`);
+  (3) the margin reslice = `resliceMargin`; (4) one iteration of loop_1 = one `hpProbeW` step of `greedyLoopW`
+  (`loop1_step`: table abstraction `ofHashT`, inner loop_2 = `BytesW.matchExtLoop` with `goto match` as exit code
+  (`loop2_eq`), loop_3 = `insertRangeW` (`loop3_eq`)), the whole loop by induction (`loop1_eq`);
+  (5) `NoTrailingLiterals` / trailing literals = `finishBlock`.  The loop lemmas are stated over the generated
+  loop functions and use only their defining equations (`rw [hashParser_Parse_loop_k]`), `bind_trans`, and
+  `omega`; the semantic content (word compare = common prefix) is NOT re-proved here, it is `ProbeW` / `BytesProps`.
 -/
 import LzModel.Generated.CodeHPParse
 import LzProofs.GenHashPropsDict
+import LzProofs.GenHPParseLemmasLoop
 
 set_option linter.unusedSimpArgs false
 set_option linter.unusedVariables false
@@ -97,4 +111,369 @@ theorem gen_hp_parse_empty (grow : Nat → Nat → Nat) (fuel : Nat) (s : Gen.ha
     · simp only [hgt, hge, if_true, if_false, hs, bind_ok, resetBlk]
       simp only [hL, if_true]
 
+
+/-! ## the whole `Parse` -/
+
+/-- the hypotheses of `gen_hp_parse` on the Go state: the representation invariant `DictWF`, the three fields
+    `HPConfig` duplicates (`s.WindowSize`, `s.BlockSize` resolve to `HPConfig`, the model reads the buffer's
+    copy; `minMatchLen` comes from `s.inputLen = s.hash.inputLen`, the model's from the configuration; only their
+    values as natural numbers matter) — `hashParser.init` establishes them (`gen_hp_init_parseOK`) —, `0 ≤ BlockSize`, `W ≤ len(Data)`, `1 ≤ inputLen`, `hashBits ≤ 32`
+    (`shift ≥ 32`; the model's `hashValue` has no `uint32(…)` truncation) and `len(Data) < 2^32` (positions are
+    stored as `uint32`).  All hold after every API history (`Verify`: `2 ≤ InputLen ≤ 8`, `HashBits ≤ 24`,
+    `BufferSize ≤ 2^32 - 8`). -/
+structure ParseOK (s : Gen.hashParser) : Prop where
+  wf : DictWF s.hashDictionary
+  cws : s.HPConfig.WindowSize.toNat = s.hashDictionary.ParserBuffer.BufConfig.WindowSize.toNat
+  cbs : s.HPConfig.BlockSize.toNat = s.hashDictionary.ParserBuffer.BufConfig.BlockSize.toNat
+  cil : s.HPConfig.InputLen.toNat = s.hashDictionary.hash.inputLen.toNat
+  bs0 : 0 ≤ s.HPConfig.BlockSize
+  w : s.hashDictionary.ParserBuffer.W ≤ s.hashDictionary.ParserBuffer.Data.len
+  il1 : 1 ≤ s.hashDictionary.hash.inputLen
+  sh : 32 ≤ s.hashDictionary.hash.shift.toNat
+  small : s.hashDictionary.ParserBuffer.Data.len < 4294967296
+
+/-- the Go error value of the two outcomes of `Parse` (`nil`, `ErrEmptyBuffer`) -/
+def parseErr : LZ.Err → Gen.Err
+  | .empty => Gen.ErrEmptyBuffer
+  | _ => Gen.Err.ok
+
+theorem parseW_single_nf (s : Parser) (stale : List Byte) (flags : Nat) (h : HashT) (hd : s.dict = .single h)
+    (hn : s.blockN ≠ 0) :
+    ProbeW.parseW s stale flags =
+      (ProbeW.processSegment1W h s.buf.data stale ((s.buf.w : Int) - h.inputLen + 1) s.buf.w).bind fun h' =>
+      (ProbeW.resliceMargin (s.buf.data.take (s.buf.w + s.blockN)) (s.buf.data.drop (s.buf.w + s.blockN) ++ stale)
+        h'.inputLen).bind fun _ =>
+      (ProbeW.runGreedyW (ProbeW.hpProbeW s.buf.cfg.windowSize s.minMatch
+          ((s.buf.data.take (s.buf.w + s.blockN)).length + 1 - h'.inputLen) (s.kind == .BHP)
+          (s.buf.data.drop (s.buf.w + s.blockN) ++ stale)) h' (s.buf.data.take (s.buf.w + s.blockN)) s.buf.w
+          ((s.buf.data.take (s.buf.w + s.blockN)).length + 1 - h'.inputLen) flags).bind fun r =>
+      some ({ s with buf := { s.buf with w := r.2.1 }, dict := .single r.1 }, r.2.1 - s.buf.w, .ok, r.2.2.1) := by
+  unfold ProbeW.parseW
+  simp only [hn, if_false, hd]
+  rfl
+
+theorem iand_one (flags : Int) (h : 0 ≤ flags) : iand flags 1 ≠ 0 ↔ flags.toNat % 2 = 1 := by
+  obtain ⟨m, rfl⟩ : ∃ m : Nat, flags = (m : Int) := ⟨flags.toNat, by omega⟩
+  have : iand (m : Int) 1 = ((m % 2 : Nat) : Int) := by
+    show Int.ofNat (m &&& 1) = _
+    rw [Nat.and_one_is_mod]; rfl
+  rw [this, Int.toNat_natCast]
+  omega
+
+theorem behind_eq (A : List UInt8) (len L : Nat) (h : L ≤ len) :
+    (A.take len).drop L ++ A.drop len = A.drop L := by
+  rw [List.drop_take]
+  have : A.drop len = (A.drop L).drop (len - L) := by rw [List.drop_drop]; congr 1; omega
+  rw [this, List.take_append_drop]
+
+
+/-- the Go state after `Parse`: new `W`, new table -/
+@[reducible] def withWT (s : Gen.hashParser) (w : Int) (t : GSlice hashEntry) : Gen.hashParser :=
+  { hashDictionary :=
+      { ParserBuffer := { s.hashDictionary.ParserBuffer with W := w },
+        hash := { s.hashDictionary.hash with table := t } },
+    HPConfig := s.HPConfig }
+
+set_option maxHeartbeats 1000000 in
+theorem gen_hp_parse (grow : Nat → Nat → Nat) (fuel : Nat) (s : Gen.hashParser) (blk : Gen.Block') (flags : Int)
+    (h : ParseOK s) (hfl : 0 ≤ flags) (hfuel : s.hashDictionary.ParserBuffer.Data.len + 3 ≤ fuel) :
+    match ProbeW.parseW (ofHPs s) (staleOf s) flags.toNat with
+    | none => hashParser_Parse grow fuel s blk flags = Res.panic
+    | some (s', n, e, b) =>
+      ∃ t blk', hashParser_Parse grow fuel s blk flags = Res.ok (t, blk', (n : Int), parseErr e) ∧
+        ofHPs t = s' ∧ staleOf t = staleOf s ∧ (e = .ok ∨ e = .empty) ∧
+        blk'.Sequences = b.seqs.map seqRep ∧ blk'.Literals.data = b.lits ∧ SWF blk'.Literals ∧ ParseOK t := by
+  have hP := h
+  obtain ⟨⟨hpb, hhw⟩, cws, cbs, cil, hbs0, hW, hil1, hsh, hsmall⟩ := h
+  obtain ⟨hgwf, hil0, hmask, hsh2, htl⟩ := hhw
+  have hD : SWF s.hashDictionary.ParserBuffer.Data := hpb.data
+  have hD' : s.hashDictionary.ParserBuffer.Data.len ≤ s.hashDictionary.ParserBuffer.Data.arr.length := hD
+  have hW0 := hpb.w
+  have hdl : s.hashDictionary.ParserBuffer.Data.data.length = s.hashDictionary.ParserBuffer.Data.len := data_length hD
+  have hbN : (ofHPs s).blockN = Min.min (s.hashDictionary.ParserBuffer.Data.len - s.hashDictionary.ParserBuffer.W.toNat)
+      s.HPConfig.BlockSize.toNat := by
+    show Min.min (s.hashDictionary.ParserBuffer.Data.data.length - _) s.hashDictionary.ParserBuffer.BufConfig.BlockSize.toNat = _
+    rw [hdl, cbs]
+    rfl
+  have hnG : (if (Int.ofNat s.hashDictionary.ParserBuffer.Data.len) - s.hashDictionary.ParserBuffer.W > s.HPConfig.BlockSize
+      then s.HPConfig.BlockSize
+      else (Int.ofNat s.hashDictionary.ParserBuffer.Data.len) - s.hashDictionary.ParserBuffer.W) =
+      (((ofHPs s).blockN : Nat) : Int) := by
+    rw [hbN]
+    show (if (s.hashDictionary.ParserBuffer.Data.len : Int) - _ > _ then _ else (s.hashDictionary.ParserBuffer.Data.len : Int) - _) = _
+    split <;> omega
+  -- the same clamp spelled `n >= s.BlockSize` (a harmless rewrite of the Go text)
+  have hnG' : (if (Int.ofNat s.hashDictionary.ParserBuffer.Data.len) - s.hashDictionary.ParserBuffer.W ≥ s.HPConfig.BlockSize
+      then s.HPConfig.BlockSize
+      else (Int.ofNat s.hashDictionary.ParserBuffer.Data.len) - s.hashDictionary.ParserBuffer.W) =
+      (((ofHPs s).blockN : Nat) : Int) := by
+    rw [hbN]
+    show (if (s.hashDictionary.ParserBuffer.Data.len : Int) - _ ≥ _ then _ else (s.hashDictionary.ParserBuffer.Data.len : Int) - _) = _
+    split <;> omega
+  by_cases hn : (ofHPs s).blockN = 0
+  · have hg : blockN s = 0 := by unfold blockN; rw [hnG, hn]; rfl
+    rw [gen_hp_parse_empty grow fuel s blk flags hg]
+    unfold ProbeW.parseW
+    simp only [hn, if_true]
+    exact ⟨s, resetBlk blk, rfl, rfl, rfl, by simp, rfl, rfl, Nat.zero_le _, hP⟩
+  -- the model side, without `do`
+  rw [parseW_single_nf (ofHPs s) (staleOf s) flags.toNat (ofHash s.hashDictionary.hash) rfl hn]
+  have hargs : ProbeW.processSegment1W (ofHash s.hashDictionary.hash) (ofHPs s).buf.data (staleOf s)
+      (((ofHPs s).buf.w : Int) - ((ofHash s.hashDictionary.hash).inputLen : Int) + 1) ((ofHPs s).buf.w : Int) =
+      ProbeW.processSegment1W (ofHash s.hashDictionary.hash) s.hashDictionary.ParserBuffer.Data.data
+        (s.hashDictionary.ParserBuffer.Data.arr.drop s.hashDictionary.ParserBuffer.Data.len)
+        ((s.hashDictionary.ParserBuffer.W - s.hashDictionary.hash.inputLen) + 1) s.hashDictionary.ParserBuffer.W := by
+    have e1 : (((ofHPs s).buf.w : Nat) : Int) = s.hashDictionary.ParserBuffer.W := by
+      show ((s.hashDictionary.ParserBuffer.W.toNat : Nat) : Int) = _; omega
+    have e2 : (((ofHash s.hashDictionary.hash).inputLen : Nat) : Int) = s.hashDictionary.hash.inputLen := by
+      show ((s.hashDictionary.hash.inputLen.toNat : Nat) : Int) = _; omega
+    rw [e1, e2]; rfl
+  rw [hargs]
+  have hps := gen_processSegment fuel s.hashDictionary ((s.hashDictionary.ParserBuffer.W - s.hashDictionary.hash.inputLen) + 1)
+    s.hashDictionary.ParserBuffer.W hD hil0 hmask hsh hsh2 ⟨hgwf, htl⟩ hsmall (by omega)
+  -- the Go side up to `processSegment`
+  have hs0 : Slice.slice blk.Literals 0 (0 : Int) = Res.ok { arr := blk.Literals.arr, len := 0 } := by
+    unfold Slice.slice
+    simp [Slice.cap]
+  generalize hG : hashParser_Parse grow fuel s blk flags = G
+  unfold hashParser_Parse at hG
+  simp only [if_false] at hG
+  simp only [hnG, hnG'] at hG
+  rw [hs0, bind_ok, if_neg (by omega)] at hG
+  cases hp1 : ProbeW.processSegment1W (ofHash s.hashDictionary.hash) s.hashDictionary.ParserBuffer.Data.data
+        (s.hashDictionary.ParserBuffer.Data.arr.drop s.hashDictionary.ParserBuffer.Data.len)
+        ((s.hashDictionary.ParserBuffer.W - s.hashDictionary.hash.inputLen) + 1) s.hashDictionary.ParserBuffer.W with
+  | none =>
+    rw [hp1] at hps
+    simp only [] at hps
+    rw [hps] at hG
+    exact hG.symm
+  | some h' =>
+    rw [hp1] at hps
+    obtain ⟨t0, ht0, rfl, hps⟩ := hps
+    rw [hps, bind_ok] at hG
+    rw [Option.bind_some]
+    dsimp only at hG
+    -- names for the natural numbers
+    obtain ⟨Wn, hWn⟩ : ∃ Wn : Nat, s.hashDictionary.ParserBuffer.W = (Wn : Int) :=
+      ⟨s.hashDictionary.ParserBuffer.W.toNat, by omega⟩
+    have hwn : (ofHPs s).buf.w = Wn := by
+      show s.hashDictionary.ParserBuffer.W.toNat = Wn; omega
+    generalize hnN : (ofHPs s).blockN = nN at hG hn hbN ⊢
+    rw [hwn]
+    have hWn' : s.hashDictionary.ParserBuffer.W.toNat = Wn := by omega
+    rw [hWn'] at hbN
+    have hLlen : Wn + nN ≤ s.hashDictionary.ParserBuffer.Data.len := by omega
+    have hpm : List.take (Wn + nN) (ofHPs s).buf.data = s.hashDictionary.ParserBuffer.Data.arr.take (Wn + nN) := by
+      show (s.hashDictionary.ParserBuffer.Data.arr.take _).take _ = _
+      rw [List.take_take, Nat.min_eq_left hLlen]
+    have hbeh : List.drop (Wn + nN) (ofHPs s).buf.data ++ staleOf s =
+        s.hashDictionary.ParserBuffer.Data.arr.drop (Wn + nN) := behind_eq _ _ _ hLlen
+    have hws : (ofHPs s).buf.cfg.windowSize = s.HPConfig.WindowSize.toNat := by rw [cws]; rfl
+    have hmmM : (ofHPs s).minMatch = Min.min 3 s.hashDictionary.hash.inputLen.toNat := by
+      show Min.min 3 s.HPConfig.InputLen.toNat = _; rw [cil]
+    have hkind : ((ofHPs s).kind == Kind.BHP) = false := rfl
+    have hpl : (s.hashDictionary.ParserBuffer.Data.arr.take (Wn + nN)).length = Wn + nN := by
+      rw [List.length_take]; omega
+    rw [hpm, hbeh, hws, hmmM, hkind, hpl]
+    simp only [ofHashT_inputLen]
+    -- p := s.Data[:s.W+n]
+    rw [hWn, slice_okI s.hashDictionary.ParserBuffer.Data 0 ((Wn : Int) + (nN : Int)) 0 (Wn + nN) rfl (by omega)
+      (Nat.zero_le _) (by omega), bind_ok] at hG
+    simp only [List.drop_zero, Nat.sub_zero] at hG
+    generalize hA : s.hashDictionary.ParserBuffer.Data.arr = A at hG hD' hpl ⊢
+    obtain ⟨iln, hiln⟩ : ∃ iln : Nat, s.hashDictionary.hash.inputLen = (iln : Int) :=
+      ⟨s.hashDictionary.hash.inputLen.toNat, by omega⟩
+    have hiln' : s.hashDictionary.hash.inputLen.toNat = iln := by omega
+    rw [hiln'] at *
+    rw [hiln] at hG
+    have hc0 : TCtx s.hashDictionary.hash.mask s.hashDictionary.hash.shift s.hashDictionary.hash.inputLen
+        { arr := A, len := 0 } → True := fun _ => trivial
+    -- the margin reslice `_p := s.Data[:inputEnd+7]`
+    have hrm : ∀ il : Nat, ProbeW.resliceMargin (List.take (Wn + nN) A) (List.drop (Wn + nN) A) il =
+        if ((Wn + nN : Nat) : Int) - (il : Int) + 1 + 7 < 0 ∨ (A.length : Int) < ((Wn + nN : Nat) : Int) - (il : Int) + 1 + 7
+        then none else some () := by
+      intro il; unfold ProbeW.resliceMargin
+      rw [List.take_append_drop, hpl]
+    rw [hrm]
+    by_cases hmar : ((Wn + nN : Nat) : Int) - (iln : Int) + 1 + 7 < 0 ∨
+        (A.length : Int) < ((Wn + nN : Nat) : Int) - (iln : Int) + 1 + 7
+    · rw [if_pos hmar]
+      rw [slice_panic _ _ _ (by
+        rw [hA]; show _ ∨ ((Wn + nN : Nat) : Int) - _ + 1 + 7 < 0 ∨ (A.length : Int) < ((Wn + nN : Nat) : Int) - _ + 1 + 7
+        omega)] at hG
+      exact hG.symm
+    rw [if_neg hmar, Option.bind_some]
+    have hcapE : ((Int.ofNat (Wn + nN) - (iln : Int) + 1 + 7).toNat) ≤ s.hashDictionary.ParserBuffer.Data.arr.length := by
+      rw [hA]; show (((Wn + nN : Nat) : Int) - _ + 1 + 7).toNat ≤ _; omega
+    rw [slice_okI s.hashDictionary.ParserBuffer.Data 0 (Int.ofNat (Wn + nN) - (iln : Int) + 1 + 7) 0
+      ((Int.ofNat (Wn + nN) - (iln : Int) + 1 + 7).toNat) rfl
+      (by show ((Wn + nN : Nat) : Int) - _ + 1 + 7 = (((((Wn + nN : Nat) : Int) - _ + 1 + 7).toNat : Nat) : Int); omega)
+      (Nat.zero_le _) hcapE, bind_ok] at hG
+    simp only [List.drop_zero, Nat.sub_zero] at hG
+    rw [hA] at hG
+    -- the greedy loop
+    have hloop : ∃ (st' : LoopSt HashT) (t' : GSlice hashEntry) (blk' : Block'),
+        ProbeW.greedyLoopW (ProbeW.hpProbeW s.HPConfig.WindowSize.toNat (Min.min 3 iln) (Wn + nN + 1 - iln) false
+            (A.drop (Wn + nN))) (A.take (Wn + nN)) (Wn + nN + 1 - iln)
+          { dict := ofHashT s.hashDictionary.hash t0, i := Wn, litIndex := Wn, seqs := [], lits := [] } = some st' ∧
+        hashParser_Parse_loop_1 grow (Int.ofNat (Wn + nN) - (iln : Int) + 1)
+          { arr := A, len := (Int.ofNat (Wn + nN) - (iln : Int) + 1 + 7).toNat } { arr := A, len := Wn + nN }
+          (if (iln : Int) < 3 then (iln : Int) else 3) fuel (Wn : Int)
+          { hashDictionary := setD s.hashDictionary t0, HPConfig := s.HPConfig }
+          { Sequences := [], Literals := { arr := blk.Literals.arr, len := 0 } } (Wn : Int) =
+          Res.ok ((st'.i : Int), setT { hashDictionary := setD s.hashDictionary t0, HPConfig := s.HPConfig } t', blk',
+            (st'.litIndex : Int)) ∧
+        TOK s.hashDictionary.hash.shift t' ∧ st'.dict = ofHashT s.hashDictionary.hash t' ∧
+        blk'.Sequences = st'.seqs.map seqRep ∧ blk'.Literals.data = st'.lits ∧ SWF blk'.Literals ∧
+        Wn ≤ st'.litIndex ∧ st'.litIndex ≤ Wn + nN := by
+      have hmmI : (if (iln : Int) < 3 then (iln : Int) else 3) = ((Min.min 3 iln : Nat) : Int) := by
+        split <;> omega
+      by_cases h0 : (Wn : Int) < Int.ofNat (Wn + nN) - (iln : Int) + 1
+      · have h0' : (Wn : Int) < ((Wn + nN : Nat) : Int) - (iln : Int) + 1 := h0
+        have hEI : Int.ofNat (Wn + nN) - (iln : Int) + 1 = ((Wn + nN + 1 - iln : Nat) : Int) := by
+          show ((Wn + nN : Nat) : Int) - _ + 1 = _; omega
+        have hE7 : (Int.ofNat (Wn + nN) - (iln : Int) + 1 + 7).toNat = Wn + nN + 1 - iln + 7 := by
+          rw [hEI]; omega
+        rw [hE7]
+        have hmar' : ¬ ((A.length : Int) < ((Wn + nN : Nat) : Int) - (iln : Int) + 1 + 7) := fun hc => hmar (Or.inr hc)
+        exact loop1_eq grow _ _ A (Wn + nN) (Wn + nN + 1 - iln) (Min.min 3 iln) s.HPConfig.WindowSize.toNat hEI hmmI
+          (by omega) (by omega) (by omega) (by omega) (by omega)
+          (Wn + nN + 1 - iln - Wn) fuel Wn Wn (Wn : Int) (Wn : Int)
+          { hashDictionary := setD s.hashDictionary t0, HPConfig := s.HPConfig }
+          { Sequences := [], Literals := { arr := blk.Literals.arr, len := 0 } } [] []
+          (by omega) (by omega) (Nat.le_refl _) rfl rfl (by omega)
+          ⟨by show Wn + nN + 1 - iln + 7 ≤ A.length; omega, hmask, hsh, hsh2,
+            by show Wn + nN + 1 - iln + 7 < _; omega⟩
+          ht0 rfl rfl rfl (Nat.zero_le _)
+      · have h0' : ¬ (Wn : Int) < ((Wn + nN : Nat) : Int) - (iln : Int) + 1 := h0
+        obtain ⟨f, rfl⟩ : ∃ f, fuel = f + 1 := ⟨fuel - 1, by omega⟩
+        refine ⟨_, t0, { Sequences := [], Literals := { arr := blk.Literals.arr, len := 0 } },
+          ProbeW.greedyLoopW_done _ _ _ _ (by show ¬ Wn < Wn + nN + 1 - iln; omega), ?_, ht0, rfl, rfl,
+          rfl, Nat.zero_le _, Nat.le_refl _, by show Wn ≤ Wn + nN; omega⟩
+        rw [hashParser_Parse_loop_1, if_neg h0]
+    obtain ⟨st', t', blk', hgl, hl1, ht', hdict', hseq', hlit', hswf', hli1, hli2⟩ := hloop
+    rw [hl1, bind_ok] at hG
+    dsimp only at hG
+    unfold ProbeW.runGreedyW
+    simp only [Option.bind_eq_bind, Option.pure_def]
+    rw [hgl, Option.bind_some, Option.bind_some]
+    dsimp only
+    have hPt : ∀ w' : Nat, w' ≤ Wn + nN → ParseOK (withWT s (w' : Int) t') := by
+      intro w' hw'
+      exact ⟨⟨⟨hD, by show (0 : Int) ≤ (w' : Int); omega, hpb.off, hpb.ss, hpb.bs⟩, ⟨ht'.1, hil0, hmask, hsh2, ht'.2⟩⟩,
+        cws, cbs, cil, hbs0,
+        by show (w' : Int) ≤ ((s.hashDictionary.ParserBuffer.Data.len : Nat) : Int); omega, hil1, hsh, hsmall⟩
+    have hslen : blk'.Sequences.length = st'.seqs.length := by rw [hseq', List.length_map]
+    unfold finishBlock
+    by_cases hfin : flags.toNat % 2 = 1 ∧ st'.seqs ≠ []
+    · rw [if_pos hfin]
+      have hne : st'.seqs.length ≠ 0 := fun hc => hfin.2 (List.eq_nil_of_length_eq_zero hc)
+      rw [if_pos ⟨(iand_one flags hfl).mpr hfin.1, by show (blk'.Sequences.length : Int) > 0; omega⟩, bind_ok] at hG
+      dsimp only at hG
+      refine ⟨withWT s (st'.litIndex : Int) t', blk', hG.symm.trans ?_, ?_, rfl, Or.inl rfl, hseq', hlit', hswf', hPt _ hli2⟩
+      · rw [hWn]
+        have : ((st'.litIndex : Nat) : Int) - (Wn : Int) = ((st'.litIndex - Wn : Nat) : Int) := by omega
+        rw [this]; rfl
+      · rw [hdict']; rfl
+    · rw [if_neg hfin]
+      have hcond : ¬ (iand flags 1 ≠ 0 ∧ Int.ofNat blk'.Sequences.length > 0) := by
+        intro ⟨h1, h2⟩
+        apply hfin
+        refine ⟨(iand_one flags hfl).mp h1, ?_⟩
+        intro hc
+        have h2' : (blk'.Sequences.length : Int) > 0 := h2
+        rw [hslen, hc] at h2'
+        exact absurd h2' (by decide)
+      rw [if_neg hcond, slice_okI _ _ (Int.ofNat (Wn + nN)) st'.litIndex (Wn + nN) rfl rfl hli2
+        (by show Wn + nN ≤ A.length; omega), bind_ok, bind_ok] at hG
+      dsimp only at hG
+      refine ⟨withWT s ((Wn + nN : Nat) : Int) t',
+        { Sequences := blk'.Sequences,
+          Literals := Slice.append grow blk'.Literals ((A.drop st'.litIndex).take (Wn + nN - st'.litIndex)) },
+        hG.symm.trans ?_, ?_, rfl, Or.inl rfl, hseq', ?_,
+        swf_append grow _ hswf' _, hPt _ (Nat.le_refl _)⟩
+      · rw [hWn, hpl]
+        have : Int.ofNat (Wn + nN) - (Wn : Int) = ((Wn + nN - Wn : Nat) : Int) := by
+          show ((Wn + nN : Nat) : Int) - _ = _; omega
+        rw [this]; rfl
+      · rw [hdict', hpl]; rfl
+      · rw [(append_spec grow blk'.Literals hswf' _).1, hlit']
+        show _ ++ (A.drop st'.litIndex).take (Wn + nN - st'.litIndex) = _ ++ (A.take (Wn + nN)).drop st'.litIndex
+        rw [List.drop_take]
+
+/-- **Go text → list-level model.**  For a Go state that abstracts to a state reachable through the API
+    (`NewParser`, then any history of `Write`, `ReadFrom`, `Parse`, `Parse(nil)`, `Shrink`, `Reset`), the translated
+    `Parse` does not panic and returns the representation of the LIST-LEVEL model `Parser.parse` — the function on
+    which C01/C02/C03/C19 are proved. -/
+theorem gen_hp_parse_model (grow : Nat → Nat → Nat) (fuel : Nat) (s : Gen.hashParser) (blk : Gen.Block') (flags : Int)
+    (h : ParseOK s) (hfl : 0 ≤ flags) (hfuel : s.hashDictionary.ParserBuffer.Data.len + 3 ≤ fuel)
+    (raw : Cfg) (s0 : Parser) (h0 : newParser .HP raw = some s0) (ops : List POp)
+    (hreach : ofHPs s = (runOps (s0, Ghost.init) ops).1) :
+    ∃ t blk', hashParser_Parse grow fuel s blk flags =
+        Res.ok (t, blk', (((ofHPs s).parse flags.toNat).2.1 : Int), parseErr ((ofHPs s).parse flags.toNat).2.2.1) ∧
+      ofHPs t = ((ofHPs s).parse flags.toNat).1 ∧ staleOf t = staleOf s ∧
+      blk'.Sequences = ((ofHPs s).parse flags.toNat).2.2.2.seqs.map seqRep ∧
+      blk'.Literals.data = ((ofHPs s).parse flags.toNat).2.2.2.lits ∧ SWF blk'.Literals ∧ ParseOK t := by
+  have hb : ProbeW.Backing (ofHPs s) (staleOf s) := staleOf_length s h.wf.1.data
+  have hW := ProbeW.parseW_reachable .HP (Or.inl rfl) raw s0 h0 ops (staleOf s) flags.toNat (by rw [← hreach]; exact hb)
+  rw [← hreach] at hW
+  have hm := gen_hp_parse grow fuel s blk flags h hfl hfuel
+  rw [hW] at hm
+  obtain ⟨t, blk', h1, h2, h3, _, h5, h6, h7, h8⟩ := hm
+  exact ⟨t, blk', h1, h2, h3, h5, h6, h7, h8⟩
+
+/-- **`ParseOK` is what `init` establishes** (non-vacuity of the hypotheses of `gen_hp_parse`): for every
+    configuration `NewParser` accepts, the translated `hashParser.init` on `new(hashParser)` yields a Go state that
+    abstracts to the model's fresh parser and satisfies `ParseOK`.  (`gen_hp_parse` then shows that `Parse`
+    preserves `ParseOK`.) -/
+theorem gen_hp_init_parseOK (raw : Cfg) (p : Parser) (hp : newParser .HP raw = some p) :
+    ∃ s', hashParser_init default (GenProps.toHP raw) = Res.ok (s', Gen.Err.ok) ∧ ofHPs s' = p ∧ ParseOK s' := by
+  obtain ⟨s', h1, h2, h3⟩ := gen_hp_init_fresh raw p hp
+  refine ⟨s', h1, h2, ?_⟩
+  unfold newParser at hp
+  simp only [] at hp
+  split at hp
+  · rename_i hv
+    simp only [Option.some.injEq] at hp
+    subst hp
+    generalize setDefaults .HP (raw.restrict .HP) = c at hv h2
+    have hhv : hashVerify c.inputLen c.hashBits Facts.maxHashBits = true := by
+      simp only [verify, Bool.and_eq_true] at hv; exact hv.2
+    rw [GenProps.hashVerify_iff] at hhv
+    simp only [Facts.maxHashBits] at hhv
+    obtain ⟨⟨hb1, hb2⟩, hb3, hb4⟩ := hhv
+    have hb4' : c.hashBits ≤ 24 := by omega
+    obtain ⟨_, hbs⟩ := verify_static .HP c hv
+    have hcfg : GenProps.ofHP s'.HPConfig = c := congrArg Parser.cfg h2
+    have hbuf : ofPB s'.hashDictionary.ParserBuffer = PBuf.init c.bufCfg := congrArg Parser.buf h2
+    have hdict : Dict.single (ofHash s'.hashDictionary.hash) =
+        Dict.single (HashT.new c.inputLen.toNat c.hashBits.toNat) := congrArg Parser.dict h2
+    injection hdict with hdict
+    have hws : s'.hashDictionary.ParserBuffer.BufConfig.WindowSize.toNat = c.windowSize.toNat :=
+      congrArg (fun b => b.cfg.windowSize) hbuf
+    have hbl : s'.hashDictionary.ParserBuffer.BufConfig.BlockSize.toNat = c.blockSize.toNat :=
+      congrArg (fun b => b.cfg.blockSize) hbuf
+    have hw : s'.hashDictionary.ParserBuffer.W.toNat = 0 := congrArg PBuf.w hbuf
+    have hd : s'.hashDictionary.ParserBuffer.Data.data = [] := congrArg PBuf.data hbuf
+    have hil : s'.hashDictionary.hash.inputLen.toNat = c.inputLen.toNat := congrArg HashT.inputLen hdict
+    have hhb : 64 - s'.hashDictionary.hash.shift.toNat = c.hashBits.toNat := congrArg HashT.hashBits hdict
+    have cW : s'.HPConfig.WindowSize = c.windowSize := congrArg Cfg.windowSize hcfg
+    have cB : s'.HPConfig.BlockSize = c.blockSize := congrArg Cfg.blockSize hcfg
+    have cI : s'.HPConfig.InputLen = c.inputLen := congrArg Cfg.inputLen hcfg
+    have hlen : s'.hashDictionary.ParserBuffer.Data.len = 0 := by
+      have := data_length h3.1.data
+      rw [hd] at this; exact this.symm
+    have hbs' : 1 ≤ c.blockSize.toNat := hbs
+    have hw0 := h3.1.w
+    have hs64 := h3.2.2.2.2.1
+    exact ⟨h3, by rw [cW, hws], by rw [cB, hbl], by rw [cI, hil], by rw [cB]; omega, by rw [hlen]; omega,
+      by omega, by omega, by rw [hlen]; decide⟩
+  · exact absurd hp (by simp)
+
 end LZ.GenHPParse
+
+#print axioms LZ.GenHPParse.gen_hp_init_parseOK
+#print axioms LZ.GenHPParse.gen_hp_parse_empty
+#print axioms LZ.GenHPParse.gen_hp_parse
+#print axioms LZ.GenHPParse.gen_hp_parse_model
